@@ -94,6 +94,15 @@ inductive CState where
   | done (txs : List Int) (t : Int) (o : Outcome)
   deriving DecidableEq, Repr, Inhabited
 
+/-- `timeout *= 2` in retryFn (fact-checked against the source, Facts/Client.lean). -/
+def backoffMul : Int := 2
+
+/-- Defaults of both clients (not used by the model, whose `T`, `n` are
+parameters; fact-checked so that the grid of the streams contains them). -/
+def defaultTimeoutNs : Nat := 5000000000
+def defaultRetries : Nat := 3
+def defaultBufferCap : Nat := 5
+
 /-- Call entry at instant 0: `i := 0; i < retry || retry < 0` then `send`. -/
 def begin (T n : Int) : CState :=
   if n = 0 then .done [] 0 .noResp
@@ -105,7 +114,7 @@ virtual instant). -/
 def fire (n : Int) (w : Wait) : CState :=
   let d := w.start + w.timeout
   if n < 0 ∨ ((w.k : Int) + 1 < n) then
-    .waiting { k := w.k + 1, start := d, timeout := 2 * w.timeout, txs := w.txs ++ [d], clk := w.clk }
+    .waiting { k := w.k + 1, start := d, timeout := backoffMul * w.timeout, txs := w.txs ++ [d], clk := w.clk }
   else .done w.txs d .noResp
 
 /-- Let virtual time run up to `t`: every deadline strictly before `t` fires,
